@@ -99,7 +99,7 @@ func Request(r *http.Request) p.DpFactory {
 	default:
 		// Content-Type follows this format: Content-Type: <media-type> [; parameter=value]
 		typ, _, _ := strings.Cut(r.Header.Get("Content-Type"), ";")
-		switch typ {
+		switch strings.TrimSpace(typ) {
 		case "application/json":
 			return Config.Parsers.JSON(r)
 		case "application/x-www-form-urlencoded":
